@@ -169,6 +169,11 @@ def main():
                     for p in range(nparts):
                         plan.append(dict(fam=fam, impl=impl, is_set=is_set, leaf=lf, internal=it, dump=fn, part=p, nparts=nparts,
                                          pure=(impl == 'py'), evict=True))
+                        if impl == 'c' and fam in ('II', 'OO'):
+                            # no sweeps, but a commit before every cursor step: the leaf the cursor is parked on is up to date
+                            # when the step runs, so a pin it left behind (also on a step that raises) shows afterwards
+                            plan.append(dict(fam=fam, impl=impl, is_set=is_set, leaf=lf, internal=it, dump=fn, part=p, nparts=nparts,
+                                             persist=True, midcommit=True))
     results = jobs.run_jobs('harness.workers.iter_worker', plan, pure=True)
     for job, res, err in results:
         ident = dict(fam=job['fam'], impl=job['impl'], is_set=job['is_set'], sizes=[job['leaf'], job['internal']])
